@@ -104,6 +104,7 @@ type Tr struct {
 	debugVals map[string][]ssa.Value // source var name -> values (from DebugRef)
 	retCount  int
 	closureCall  bool // the call being translated may run a closure of this function
+	capWrites    map[*ssa.Alloc]bool // captured variables some closure does more than read
 	keepInternal bool // havocAll: keep the internal (first-party accounting) ghost variables
 	ptrArgs   map[string]ssa.Value // callMods: callee parameter name -> argument value
 	preOnly   bool // applyContract: check the preconditions only (go statements)
@@ -291,7 +292,7 @@ func (t *Tr) havocAll(st *State, exceptGhost bool) {
 		if _, ok := t.vals[al]; !ok {
 			continue
 		}
-		if al.Heap && t.closureCall {
+		if al.Heap && t.closureCall && t.closureMayWrite(al) {
 			continue // a closure of this function may be running: it can write the captured variables
 		}
 		a := t.addrOfTerm(t.vals[al].S, al.Type().Underlying().(*types.Pointer).Elem())
@@ -765,4 +766,69 @@ func mkNot(p string) string {
 		return "true"
 	}
 	return "(not " + p + ")"
+}
+
+
+// closureMayWrite: some closure of this function (transitively) captures the
+// variable and does something with it other than reading it.
+func (t *Tr) closureMayWrite(al *ssa.Alloc) bool {
+	if t.capWrites == nil {
+		t.capWrites = map[*ssa.Alloc]bool{}
+		var visit func(fn *ssa.Function, bound map[*ssa.FreeVar]*ssa.Alloc)
+		visit = func(fn *ssa.Function, bound map[*ssa.FreeVar]*ssa.Alloc) {
+			for _, b := range fn.Blocks {
+				for _, in := range b.Instrs {
+					// uses of captured cells inside this closure
+					for _, op := range in.Operands(nil) {
+						fv, ok := (*op).(*ssa.FreeVar)
+						if !ok {
+							continue
+						}
+						root, ok := bound[fv]
+						if !ok {
+							continue
+						}
+						switch u := in.(type) {
+						case *ssa.UnOp:
+							if u.Op == token.MUL {
+								continue // a read
+							}
+						case *ssa.DebugRef:
+							continue
+						case *ssa.MakeClosure:
+							continue // handled below (re-capture)
+						}
+						t.capWrites[root] = true
+					}
+					mc, ok := in.(*ssa.MakeClosure)
+					if !ok {
+						continue
+					}
+					inner, ok := mc.Fn.(*ssa.Function)
+					if !ok {
+						continue
+					}
+					nb := map[*ssa.FreeVar]*ssa.Alloc{}
+					for i, bv := range mc.Bindings {
+						if i >= len(inner.FreeVars) {
+							break
+						}
+						switch x := bv.(type) {
+						case *ssa.Alloc:
+							nb[inner.FreeVars[i]] = x
+						case *ssa.FreeVar:
+							if r, ok := bound[x]; ok {
+								nb[inner.FreeVars[i]] = r
+							}
+						}
+					}
+					visit(inner, nb)
+				}
+			}
+		}
+		if t.fn != nil {
+			visit(t.fn, map[*ssa.FreeVar]*ssa.Alloc{})
+		}
+	}
+	return t.capWrites[al]
 }
